@@ -257,6 +257,51 @@ theorem zip_keys_values (d : Dict κ ν) : (dKeys d).zip (dValues d) = d := by
 end Dict
 
 /-! ### the transaction machine -/
+section Iter
+variable {σ μ : Type} (apply : σ → μ → Except Err σ) (size : σ → Nat)
+
+/-- While an iteration is active a program either fails with the mutation error or leaves the
+    container exactly as it was — according to whether it attempts a mutation. -/
+theorem runProg_guarded (p : Prog μ) (n : Nat) (c : σ) :
+    runProg apply size (n + 1) c p = if p.attempts (size c) then .error .mutation else .ok c := by
+  induction p generalizing n with
+  | skip => simp [runProg, Prog.attempts]
+  | mutate m => simp [runProg, Prog.attempts]
+  | seq p q ihp ihq =>
+    simp only [runProg, Prog.attempts]
+    rw [ihp]
+    by_cases hp : p.attempts (size c) = true
+    · simp [hp]
+    · simp [hp, ihq]
+  | iter j body ih =>
+    simp only [runProg, Prog.attempts]
+    by_cases hj : j < size c
+    · simp [hj, ih]
+    · simp [hj]
+
+/-- every container a program passes through satisfies an invariant the mutations preserve -/
+theorem runProg_invariant (P : σ → Prop) (hP : ∀ c m c', P c → apply c m = .ok c' → P c')
+    (p : Prog μ) (n : Nat) (c c' : σ) (hc : P c) (h : runProg apply size n c p = .ok c') : P c' := by
+  induction p generalizing n c c' with
+  | skip => simp [runProg] at h; exact h ▸ hc
+  | mutate m =>
+    simp only [runProg] at h
+    split at h
+    · exact hP c m c' hc h
+    · cases h
+  | seq p q ihp ihq =>
+    simp only [runProg] at h
+    split at h
+    · rename_i c1 h1; exact ihq n c1 c' (ihp n c c1 hc h1) h
+    · cases h
+  | iter j body ih =>
+    simp only [runProg] at h
+    split at h
+    · exact ih (n + 1) c c' hc h
+    · cases h; exact hc
+
+end Iter
+
 section Machine
 variable {σ ω β ε : Type} (step : σ → ω → Except ε (σ × β))
 
